@@ -70,7 +70,36 @@ func runC09(c *Ctx) {
 			// value and format passed through
 			okArgs := len(enc.Call.Args) == 5
 			if okArgs {
-				_, isSrc := enc.Call.Args[3].(*ssa.Parameter)
+				// the source value itself, or nil in its place where it was found to be a nil pointer (reflect IsNil)
+				isSrc := true
+				var srcLeaves []ssa.Value
+				leaves(enc.Call.Args[3], map[ssa.Value]bool{}, &srcLeaves)
+				nilPtrNormalised := false
+				for _, lv := range srcLeaves {
+					switch x := lv.(type) {
+					case *ssa.Parameter:
+					case *ssa.Const:
+						if x.Value != nil {
+							isSrc = false
+						}
+						nilPtrNormalised = true
+					default:
+						isSrc = false
+					}
+				}
+				if nilPtrNormalised {
+					// the nil replacement is taken only on an edge where reflect reported a nil pointer
+					okNil := false
+					for _, ci := range core.Calls(cw) {
+						if f := core.StaticCallee(ci); f != nil && core.MethodIs(f, "reflect", "Value", "IsNil") {
+							if call, ok := ci.(*ssa.Call); ok && len(boolEdges(call, true)) > 0 {
+								okNil = true
+							}
+						}
+					}
+					isSrc = isSrc && okNil
+				}
+				R.Check(nilPtrNormalised && isSrc, "C09.R1", "Column.Write:nil-pointer-is-NULL", c.at(enc), "a nil pointer of any type is transmitted as NULL (the type map itself only recognises the untyped nil and would call methods on the nil pointer)", "the source is replaced by nil where reflect reports a nil pointer, before Encode", "the source value reaches Encode unchanged: a typed nil pointer to a nullable type (e.g. (*pgtype.Text)(nil)) makes the codec call a method on the nil pointer - a panic instead of a NULL field")
 				fmtP, isFmt := core.StripConv(enc.Call.Args[2]).(*ssa.Parameter)
 				_, oidPath := pathOf(core.StripConv(enc.Call.Args[1]))
 				okArgs = isSrc && isFmt && core.IsNamed(fmtP.Type(), pkWire, "FormatCode") && oidPath == ".Oid"
